@@ -168,7 +168,14 @@ def handle : Handler := fun op inp impl =>
       { agree := implP == asSet ps, holds := holds, nontrivial := args.length > 1,
         model := toJson (asSet ps),
         why := if holds then "" else "patterns supplied but not honoured: " ++ toString ((plain ++ fromFiles).filter (!implP.contains ·)) }
-    | none => { agree := false, holds := holds, why := "model: unreadable file" }
+    | none =>
+      -- a pattern file that cannot be read: the invocation must be refused with an error that
+      -- names the file (never run with the remaining patterns, never with none)
+      let e := str (field impl "err")
+      let refused := implP.isEmpty && (e.splitOn "no such file").length > 1
+      { agree := refused, holds := refused, nontrivial := true, cls := "unreadable-file",
+        model := Json.mkObj [("refused", true)],
+        why := if refused then "" else "a pattern file that does not exist was not refused: " ++ e }
   | "marked" => handleMarked inp impl
   | _ => bad ("unknown op " ++ op)
 
